@@ -383,6 +383,10 @@ func c09(r *Run) {
 		}
 	}
 
+	// R8: the builder's source of transactions never hands one out twice within a build
+	r.rule("C09.R8", "K7", "mempool streaming marks every handed-out transaction until the build finishes", 4)
+	r.streamMarks("C09.R8")
+
 	// R7
 	r.guardedBy(w, lockSpec{Rule: "C09.R7", Owner: pkgVW + ".TimeValidityWindow", Fields: []string{"seen", "lastAcceptedBlockHeight"}, Mutex: "mu", Pkgs: []string{pkgVW},
 		ExemptFn: map[string]string{pkgVW + ".NewTimeValidityWindow": "constructor: the window is not yet shared"}, MinSites: 6})
